@@ -46,6 +46,9 @@ class Ref:
     def status(self, c, now, strict_dead_at_boundary):
         """'live' | 'dead' | 'edge' """
         it = self.items[c]
+        if it.get('maybe'):
+            # possibly evicted by the size limit: present or absent are both acceptable
+            return 'edge'
         if it['exp'] is None or now < it['exp']:
             return 'live'
         if it['exp'] < now:
@@ -63,6 +66,7 @@ def upd(it, new):
     k = it['k']
     it.update(new)
     it['k'] = k
+    it.pop('maybe', None)
 
 
 def fmt_flags(val, et, tg, it):
@@ -178,46 +182,52 @@ def step(ref, m, op, res, now, judge):
                 want_v = ('h' + want_v[1:]) if want_v.startswith('y') else want_v
             want = fmt_flags(want_v, et, tg, it) if m in ('get', 'pop') else want_v
             hit = (res == want)
+            if not hit and evictable and res != miss and (et or tg) and res.startswith('(' + want_v + ','):
+                # after a possible eviction the item may have been re-created (e.g. by incr) with
+                # fresh metadata: the value is what the statement pins down
+                hit = True
             if not hit and (m == 'read' or (m == 'get' and op.get('read'))) and it['v'].startswith('y'):
                 # a bytes value kept inline comes back as bytes, a file-backed one as a handle
                 hit = (res == fmt_flags(it['v'], et, tg, it) if m == 'get' else res == it['v'])
                 if hit:
                     return None
+            if hit and res != want:
+                if m == 'pop':
+                    del items[c]
+                return None
             if not hit and res != miss and judge and not (m in ('read',) and not it['v'].startswith('y')) \
                     and not ((m == 'get' and op.get('read')) and not it['v'].startswith('y')):
                 return 'returned value differs from the value stored (want %s)' % want[:80]
             if res == miss and st == 'live' and judge and not evictable:
                 return 'a live key was reported missing'
-            if m == 'pop' and (hit or st == 'live'):
-                if res != miss:
-                    del items[c]
-                elif evictable:
-                    del items[c]
-            if res == miss and evictable and c in items:
+            if m == 'pop' and res != miss:
                 del items[c]
+            if res == miss and evictable and c in items and st == 'live':
+                items[c]['maybe'] = True
             return None
         if m == 'contains':
             if res == 'F' and st == 'live' and judge and not evictable:
                 return 'a live key was reported absent'
-            if res == 'F' and evictable:
-                del items[c]
+            if res == 'F' and evictable and st == 'live':
+                items[c]['maybe'] = True
             return None
         if m in ('delete', 'delitem'):
             ok = 'T'
             if res != ok and st == 'live' and judge and not evictable:
                 return 'delete of a live key must succeed'
-            if res == ok or evictable:
+            if res == ok:
                 del items[c]
-            elif st == 'edge':
-                pass
+            elif evictable and st == 'live':
+                items[c]['maybe'] = True
             return None
         if m == 'touch':
             if res == 'F' and st == 'live' and judge and not evictable:
                 return 'touch of a live key must succeed'
             if res == 'T':
                 it['exp'] = None if op.get('ttl') is None else now + op['ttl']
-            elif evictable:
-                del items[c]
+                it.pop('maybe', None)
+            elif evictable and st == 'live':
+                it['maybe'] = True
             return None
 
     if m == 'incr':
@@ -243,7 +253,7 @@ def step(ref, m, op, res, now, judge):
         it = items[c]
         if res.startswith('!'):
             if res == '!KeyError' and evictable:
-                del items[c]
+                items[c]['maybe'] = True
             return None
         if it['v'].startswith('i'):
             want = 'i%d' % (int(it['v'][1:]) + op.get('delta', 1))
